@@ -2584,17 +2584,18 @@ func c8corrNamespace(c *Ctx, or *Oracle, r *rand.Rand, n int) {
 		// profiles: few short names; ~64 names (count threshold); ~10 names of ~100 bytes (byte threshold); mixed
 		profile := r.IntN(4)
 		nops, nameLen, pool := 1+r.IntN(20), 2, 6
+		rmOneIn := 8
 		switch profile {
-		case 1:
-			nops, nameLen, pool = 60+r.IntN(20), 2, 200
-		case 2:
-			nops, nameLen, pool = 8+r.IntN(8), 90+r.IntN(30), 40
+		case 1: // around the 64-name switch: the 66th successful insert attempt flips the mode
+			nops, nameLen, pool, rmOneIn = 62+r.IntN(12), 2, 400, 40
+		case 2: // around the 1024-byte switch
+			nops, nameLen, pool, rmOneIn = 8+r.IntN(8), 90+r.IntN(30), 40, 20
 		case 3:
 			nops, nameLen, pool = 70+r.IntN(60), 1+r.IntN(20), 90
 		}
 		sawMap := false
 		for i := 0; i < nops; i++ {
-			if ns.Length() > 0 && r.IntN(8) == 0 {
+			if ns.Length() > 0 && r.IntN(rmOneIn) == 0 {
 				ns.RemoveLast()
 				sb.WriteString(" rm")
 				wb.WriteString("-")
